@@ -1,5 +1,9 @@
 import Driver.Registry
 import Driver.Exec
+import Driver.Codec
+import Driver.IOSpec
+import Driver.Capture
+import Driver.Backup
 import Driver.CalcSteps
 import Driver.Struct
 /-! `mxdriver <layer>`: reads one operation per line on stdin, prints one observation per line. -/
@@ -7,6 +11,10 @@ def main (args : List String) : IO UInt32 := do
   match args with
   | ["registry"] => Driver.Registry.main; return 0
   | ["exec"] => Driver.Exec.main; return 0
+  | ["codec"] => Driver.Codec.main; return 0
+  | ["iospec"] => Driver.IOSpec.main; return 0
+  | ["capture"] => Driver.Capture.main; return 0
+  | ["backup"] => Driver.Backup.main; return 0
   | ["calcsteps"] => Driver.CalcSteps.main; return 0
   | ["struct"] => Driver.Struct.main; return 0
   | _ => IO.eprintln "usage: mxdriver <layer>"; return 2
